@@ -147,6 +147,11 @@ func cmdCheck(args []string) int {
 				byKey[fi.Key] = fi
 			}
 		}
+		for _, fi := range prog.AspectFuncs {
+			if fi.Kind == KContract {
+				byKey[fi.Key] = fi
+			}
+		}
 	}
 	type job struct {
 		key string
